@@ -56,159 +56,177 @@ def run(index, rep, tier):
     rep.rule("R07.6", "Edge.invert swaps the two edge lengths (a true swap), and the basal collapse adds the deleted edge's length to its sibling")
 
     # ---- R07.1
-    for name in HARD:
-        fi = index.function(TREE + "." + name)
-        cfg = cfg_of(fi)
+    with rep.section("R07.1"):
+        for name in HARD:
+            fi = index.function(TREE + "." + name)
+            cfg = cfg_of(fi)
 
-        def sets_rooted(n):
-            if n.kind == "stmt" and isinstance(n.ast, ast.Assign) and norm(n.ast.targets[0]) in ("self.is_rooted", "self._is_rooted") and const_value(n.ast.value) is True:
-                return True
-            return any(call_name(c) in HARD and norm(c.func.value) == "self" for c in node_calls(n) if isinstance(c.func, ast.Attribute))
-        ok, w = cfg.must_pass(cfg.entry, sets_rooted)
-        rep.check(ok, "R07.1", fi.qualname, "is_rooted = True on every path", fn_where(fi), "%s sets the tree rooted on every normal path" % name,
-                  "%s can return without setting self.is_rooted = True: a hard re-rooting leaves the tree's rooting flag as it was" % fi.qualname)
-        # the rooting flag is set before any re-encoding: the encoder reads it (an unrooted tree's basal bifurcation is collapsed)
-        def encodes(n):
-            for c in node_calls(n):
-                if not (isinstance(c.func, ast.Attribute) and norm(c.func.value) == "self"):
-                    continue
-                if c.func.attr in ("update_bipartitions", "encode_bipartitions", "_update_bipartitions"):
+            def sets_rooted(n):
+                if n.kind == "stmt" and isinstance(n.ast, ast.Assign) and norm(n.ast.targets[0]) in ("self.is_rooted", "self._is_rooted") and const_value(n.ast.value) is True:
                     return True
-                if c.func.attr in SOFT:
-                    ub = get_kwarg(c, "update_bipartitions")
-                    if ub is not None and const_value(ub, default=True) is not False:
+                return any(call_name(c) in HARD and norm(c.func.value) == "self" for c in node_calls(n) if isinstance(c.func, ast.Attribute))
+            ok, w = cfg.must_pass(cfg.entry, sets_rooted)
+            rep.check(ok, "R07.1", fi.qualname, "is_rooted = True on every path", fn_where(fi), "%s sets the tree rooted on every normal path" % name,
+                      "%s can return without setting self.is_rooted = True: a hard re-rooting leaves the tree's rooting flag as it was" % fi.qualname)
+            # the rooting flag is set before any re-encoding: the encoder reads it (an unrooted tree's basal bifurcation is collapsed)
+            def encodes(n):
+                for c in node_calls(n):
+                    if not (isinstance(c.func, ast.Attribute) and norm(c.func.value) == "self"):
+                        continue
+                    if c.func.attr in ("update_bipartitions", "encode_bipartitions", "_update_bipartitions"):
                         return True
-            return False
-        for n in cfg.nodes:
-            if encodes(n):
-                ok = cfg.dominated_by(n, sets_rooted, follow_exc=False)
-                rep.check(ok, "R07.1", fi.qualname, "re-encoding before the rooting flag is set", fn_where(fi, n.stmt), "%s: the bipartition update at line %d runs after is_rooted = True" % (name, n.lineno),
-                          "%s re-encodes the bipartitions (`%s`) on a path where self.is_rooted has not yet been set True: the encoder sees the old (unrooted) flag, collapses the new basal bifurcation and caches unrooted bipartitions, so the result is not the requested rooted tree" % (fi.qualname, norm_stmt(n.stmt)[:70]))
-        # and nothing resets it afterwards
-        after = [n for n in cfg.nodes if n.kind == "stmt" and isinstance(n.ast, ast.Assign) and norm(n.ast.targets[0]) in ("self.is_rooted", "self._is_rooted")
-                 and const_value(n.ast.value) is not True]
-        rep.check(not after, "R07.1", fi.qualname, "no other rooting store", fn_where(fi, after[0].stmt if after else None), "%s stores nothing but True to the rooting flag" % name,
-                  "%s stores `%s` to the rooting flag" % (fi.qualname, norm_stmt(after[0].stmt) if after else ""))
+                    if c.func.attr in SOFT:
+                        ub = get_kwarg(c, "update_bipartitions")
+                        if ub is not None and const_value(ub, default=True) is not False:
+                            return True
+                return False
+            for n in cfg.nodes:
+                if encodes(n):
+                    ok = cfg.dominated_by(n, sets_rooted, follow_exc=False)
+                    rep.check(ok, "R07.1", fi.qualname, "re-encoding before the rooting flag is set", fn_where(fi, n.stmt), "%s: the bipartition update at line %d runs after is_rooted = True" % (name, n.lineno),
+                              "%s re-encodes the bipartitions (`%s`) on a path where self.is_rooted has not yet been set True: the encoder sees the old (unrooted) flag, collapses the new basal bifurcation and caches unrooted bipartitions, so the result is not the requested rooted tree" % (fi.qualname, norm_stmt(n.stmt)[:70]))
+            # and nothing resets it afterwards
+            after = [n for n in cfg.nodes if n.kind == "stmt" and isinstance(n.ast, ast.Assign) and norm(n.ast.targets[0]) in ("self.is_rooted", "self._is_rooted")
+                     and const_value(n.ast.value) is not True]
+            rep.check(not after, "R07.1", fi.qualname, "no other rooting store", fn_where(fi, after[0].stmt if after else None), "%s stores nothing but True to the rooting flag" % name,
+                      "%s stores `%s` to the rooting flag" % (fi.qualname, norm_stmt(after[0].stmt) if after else ""))
 
     # ---- R07.2
-    for name in SOFT:
-        fi = index.function(TREE + "." + name)
-        ws = rooting_writes(index, fi)
-        bad = [(f, a, v, st) for f, a, v, st in ws if not ((a in ("is_rooted", "_is_rooted") and v == "False" and f.name in ("collapse_basal_bifurcation", "polytomize_root"))
-                                                          or f.name in ("_set_is_rooted", "_set_is_unrooted"))]
-        for f, a, v, st in bad:
-            rep.check(False, "R07.2", fi.qualname, "reaches `%s` in %s" % (norm_stmt(st), f.name), fn_where(f, st), "soft operation reaches a rooting write",
-                      "the soft operation %s reaches `%s` (in %s): operations documented as soft must leave the rooting flag as it was" % (fi.qualname, norm_stmt(st), f.qualname))
-        calls = self_calls(index, fi)
-        hard_called = sorted(calls & set(HARD))
-        rep.check(not hard_called and not bad, "R07.2", fi.qualname, "calls hard operation %s" % hard_called, fn_where(fi),
-                  "%s: transitive self-calls %s contain no hard operation and no rooting store other than the unrooted basal collapse (%d rooting writes reached)" % (name, sorted(calls)[:6], len(ws)),
-                  "the soft operation %s calls the hard operation(s) %s, which set the tree rooted" % (fi.qualname, hard_called))
-    # the basal collapse is only reached under `not self._is_rooted`
-    for name in ("reseed_at",):
-        fi = index.function(TREE + "." + name)
-        cfg = cfg_of(fi)
-        for n in cfg.nodes:
-            if any(call_name(c) == "collapse_basal_bifurcation" for c in node_calls(n)):
-                reach = cfg.reach([cfg.entry], follow_exc=False, edge_ok=lambda s, l, d: not (s.kind == "test" and norm(s.ast) == "self._is_rooted" and l == "f"))
-                rep.check(n not in reach, "R07.2", fi.qualname, "basal collapse only when not rooted", fn_where(fi, n.stmt), "reseed_at collapses the basal bifurcation only under `not self._is_rooted`",
-                          "reseed_at can collapse the basal bifurcation (which marks the tree unrooted) of a ROOTED tree")
+    with rep.section("R07.2"):
+        for name in SOFT:
+            fi = index.function(TREE + "." + name)
+            ws = rooting_writes(index, fi)
+            bad = [(f, a, v, st) for f, a, v, st in ws if not ((a in ("is_rooted", "_is_rooted") and v == "False" and f.name in ("collapse_basal_bifurcation", "polytomize_root"))
+                                                              or f.name in ("_set_is_rooted", "_set_is_unrooted"))]
+            for f, a, v, st in bad:
+                rep.check(False, "R07.2", fi.qualname, "reaches `%s` in %s" % (norm_stmt(st), f.name), fn_where(f, st), "soft operation reaches a rooting write",
+                          "the soft operation %s reaches `%s` (in %s): operations documented as soft must leave the rooting flag as it was" % (fi.qualname, norm_stmt(st), f.qualname))
+            calls = self_calls(index, fi)
+            hard_called = sorted(calls & set(HARD))
+            rep.check(not hard_called and not bad, "R07.2", fi.qualname, "calls hard operation %s" % hard_called, fn_where(fi),
+                      "%s: transitive self-calls %s contain no hard operation and no rooting store other than the unrooted basal collapse (%d rooting writes reached)" % (name, sorted(calls)[:6], len(ws)),
+                      "the soft operation %s calls the hard operation(s) %s, which set the tree rooted" % (fi.qualname, hard_called))
+        # the basal collapse is only reached under `not self._is_rooted`
+        for name in ("reseed_at",):
+            fi = index.function(TREE + "." + name)
+            cfg = cfg_of(fi)
+            for n in cfg.nodes:
+                if any(call_name(c) == "collapse_basal_bifurcation" for c in node_calls(n)):
+                    reach = cfg.reach([cfg.entry], follow_exc=False, edge_ok=lambda s, l, d: not (s.kind == "test" and norm(s.ast) == "self._is_rooted" and l == "f"))
+                    rep.check(n not in reach, "R07.2", fi.qualname, "basal collapse only when not rooted", fn_where(fi, n.stmt), "reseed_at collapses the basal bifurcation only under `not self._is_rooted`",
+                              "reseed_at can collapse the basal bifurcation (which marks the tree unrooted) of a ROOTED tree")
 
     # ---- R07.3
-    fi = index.function(TREE + ".to_outgroup_position")
-    og = [p for p in fi.params if p != "self"][0]
-    rs = [c for c in calls_in(fi.node) if call_name(c) == "reseed_at"]
-    ins = [c for c in calls_in(fi.node) if call_name(c) == "insert_child"]
-    if len(rs) != 1 or not ins:
-        raise AnalysisError("R07.3: to_outgroup_position shape not recognised")
-    target = norm(rs[0].args[0]) if rs[0].args else norm(get_kwarg(rs[0], "new_seed_node"))
-    last = ins[-1]
-    idx = last.args[0] if last.args else get_kwarg(last, "index")
-    node = last.args[1] if len(last.args) > 1 else get_kwarg(last, "node")
-    ok = norm(last.func.value) == target and const_value(idx, -1) == 0 and node is not None and norm(node) == og
-    rep.check(ok, "R07.3", fi.qualname, norm(last), fn_where(fi, last), "outgroup re-inserted as %s.insert_child(0, %s)" % (target, og),
-              "to_outgroup_position finishes with `%s`: the outgroup must be inserted at index 0 of the node the tree was reseeded at (`%s`)" % (norm(last), target))
-    pdef = [n for n in walk_no_nested(fi.node) if isinstance(n, ast.Assign) and norm(n.targets[0]) == target]
-    ok = bool(pdef) and norm(pdef[0].value) in (og + "._parent_node", og + ".parent_node")
-    rep.check(ok, "R07.3", fi.qualname, "reseed target = outgroup's parent", fn_where(fi), "the tree is reseeded at the outgroup's parent",
-              "to_outgroup_position reseeds at `%s`, not at the outgroup's parent" % (norm(pdef[0].value) if pdef else "?"))
+    with rep.section("R07.3"):
+        fi = index.function(TREE + ".to_outgroup_position")
+        og = [p for p in fi.params if p != "self"][0]
+        rs = [c for c in calls_in(fi.node) if call_name(c) == "reseed_at"]
+        ins = [c for c in calls_in(fi.node) if call_name(c) == "insert_child"]
+        if len(rs) != 1:
+            raise AnalysisError("R07.3: to_outgroup_position shape not recognised")
+        # a child-list position looked up before the reseed is stale afterwards (reseed_at / the basal collapse splice children in)
+        for n in walk_no_nested(fi.node):
+            if isinstance(n, ast.Assign) and isinstance(n.targets[0], ast.Name) and isinstance(n.value, ast.Call) and call_name(n.value) == "index" and n.lineno < rs[0].lineno:
+                uses = [u for u in walk_no_nested(fi.node) if isinstance(u, ast.Name) and u.id == n.targets[0].id and isinstance(u.ctx, ast.Load) and u.lineno > rs[0].lineno]
+                rep.check(not uses, "R07.3", fi.qualname, "child position looked up before reseed_at and used after it", fn_where(fi, uses[0] if uses else n), "no stale child position",
+                          "to_outgroup_position looks up a child-list position (`%s`) before reseed_at and uses it afterwards: re-seeding (and the basal collapse it may perform) splices children into that list, so the position can name a different child and the outgroup does not end up first" % norm_stmt(n))
+        if not ins:
+            front = [c for c in calls_in(fi.node) if call_name(c) == "insert" and c.args and const_value(c.args[0], -1) == 0 and c.lineno > rs[0].lineno]
+            direct = [c for c in front if len(c.args) > 1 and norm(c.args[1]) == og]
+            rep.check(bool(direct), "R07.3", fi.qualname, "outgroup not re-inserted through insert_child(0, ...)", fn_where(fi, front[0] if front else rs[0]), "the outgroup node itself is inserted at index 0",
+                      "to_outgroup_position no longer finishes with <reseed target>.insert_child(0, <outgroup>): after re-seeding, the outgroup's position among its parent's children is not what it was before, so only removing and re-inserting the node itself at index 0 guarantees that the outgroup is the first child of the root")
+            raise AnalysisError("R07.3: to_outgroup_position does not use insert_child; the remaining R07.3 obligations were not evaluated")
+        target = norm(rs[0].args[0]) if rs[0].args else norm(get_kwarg(rs[0], "new_seed_node"))
+        last = ins[-1]
+        idx = last.args[0] if last.args else get_kwarg(last, "index")
+        node = last.args[1] if len(last.args) > 1 else get_kwarg(last, "node")
+        ok = norm(last.func.value) == target and const_value(idx, -1) == 0 and node is not None and norm(node) == og
+        rep.check(ok, "R07.3", fi.qualname, norm(last), fn_where(fi, last), "outgroup re-inserted as %s.insert_child(0, %s)" % (target, og),
+                  "to_outgroup_position finishes with `%s`: the outgroup must be inserted at index 0 of the node the tree was reseeded at (`%s`)" % (norm(last), target))
+        pdef = [n for n in walk_no_nested(fi.node) if isinstance(n, ast.Assign) and norm(n.targets[0]) == target]
+        ok = bool(pdef) and norm(pdef[0].value) in (og + "._parent_node", og + ".parent_node")
+        rep.check(ok, "R07.3", fi.qualname, "reseed target = outgroup's parent", fn_where(fi), "the tree is reseeded at the outgroup's parent",
+                  "to_outgroup_position reseeds at `%s`, not at the outgroup's parent" % (norm(pdef[0].value) if pdef else "?"))
 
     # ---- R07.4
-    nsites = 0
-    for modname in (TM + "_tree", TM + "_node"):
-        for fi in index.functions_in_module(modname):
-            for iff in walk_no_nested(fi.node):
-                if not isinstance(iff, ast.If):
-                    continue
-                single = None
-                for t in ast.walk(iff.test):
-                    cp = compare_parts(t) if isinstance(t, ast.Compare) else None
-                    if cp and cp[1] == "Eq" and const_value(cp[2]) == 1 and isinstance(cp[0], ast.Call) and call_name(cp[0]) == "len":
-                        single = norm(cp[0].args[0])
-                    if isinstance(t, ast.Name) and t.id == "num_children":
-                        pass
-                cp = compare_parts(iff.test.values[0]) if isinstance(iff.test, ast.BoolOp) else compare_parts(iff.test)
-                if single is None and cp and cp[1] == "Eq" and const_value(cp[2]) == 1 and isinstance(cp[0], ast.Name):
-                    lend = [n for n in walk_no_nested(fi.node) if isinstance(n, ast.Assign) and norm(n.targets[0]) == cp[0].id and isinstance(n.value, ast.Call) and call_name(n.value) == "len"]
-                    if lend:
-                        single = cp[0].id
-                if single is None:
-                    continue
-                body_calls = {call_name(c) for s in iff.body for c in calls_in(s)}
-                stores_memo = any(isinstance(n, ast.Assign) and isinstance(n.targets[0], ast.Subscript) and norm(n.targets[0].value) == "memo" for s in iff.body for n in ast.walk(s))
-                if not (body_calls & {"remove_child", "insert_child", "add_child"}) and not stores_memo:
-                    continue
-                nsites += 1
-                merges = []
-                for s in iff.body:
-                    for n in ast.walk(s):
-                        if isinstance(n, (ast.Assign, ast.AugAssign)):
-                            t = n.targets[0] if isinstance(n, ast.Assign) else n.target
-                            if isinstance(t, ast.Attribute) and t.attr == "length" and ("length" in norm(n.value)):
-                                merges.append(n)
-                rep.check(bool(merges), "R07.4", fi.qualname, "splice-out under `%s` without length merge" % norm(iff.test), fn_where(fi, iff),
-                          "%s: the single-child splice-out under `%s` merges edge lengths (%s)" % (fi.name, norm(iff.test), norm(merges[0])[:50] if merges else ""),
-                          "%s splices out a node with a single child (under `%s`) and re-attaches the grandchildren without adding the removed node's edge length to theirs: total tree length and leaf-to-leaf path lengths change" % (fi.qualname, norm(iff.test)))
-    rep.floor("R07.4", "single-child splice-out sites", 5, nsites)
+    with rep.section("R07.4"):
+        nsites = 0
+        for modname in (TM + "_tree", TM + "_node"):
+            for fi in index.functions_in_module(modname):
+                for iff in walk_no_nested(fi.node):
+                    if not isinstance(iff, ast.If):
+                        continue
+                    single = None
+                    for t in ast.walk(iff.test):
+                        cp = compare_parts(t) if isinstance(t, ast.Compare) else None
+                        if cp and cp[1] == "Eq" and const_value(cp[2]) == 1 and isinstance(cp[0], ast.Call) and call_name(cp[0]) == "len":
+                            single = norm(cp[0].args[0])
+                        if isinstance(t, ast.Name) and t.id == "num_children":
+                            pass
+                    cp = compare_parts(iff.test.values[0]) if isinstance(iff.test, ast.BoolOp) else compare_parts(iff.test)
+                    if single is None and cp and cp[1] == "Eq" and const_value(cp[2]) == 1 and isinstance(cp[0], ast.Name):
+                        lend = [n for n in walk_no_nested(fi.node) if isinstance(n, ast.Assign) and norm(n.targets[0]) == cp[0].id and isinstance(n.value, ast.Call) and call_name(n.value) == "len"]
+                        if lend:
+                            single = cp[0].id
+                    if single is None:
+                        continue
+                    body_calls = {call_name(c) for s in iff.body for c in calls_in(s)}
+                    stores_memo = any(isinstance(n, ast.Assign) and isinstance(n.targets[0], ast.Subscript) and norm(n.targets[0].value) == "memo" for s in iff.body for n in ast.walk(s))
+                    if not (body_calls & {"remove_child", "insert_child", "add_child"}) and not stores_memo:
+                        continue
+                    nsites += 1
+                    merges = []
+                    for s in iff.body:
+                        for n in ast.walk(s):
+                            if isinstance(n, (ast.Assign, ast.AugAssign)):
+                                t = n.targets[0] if isinstance(n, ast.Assign) else n.target
+                                if isinstance(t, ast.Attribute) and t.attr == "length" and ("length" in norm(n.value)):
+                                    merges.append(n)
+                    rep.check(bool(merges), "R07.4", fi.qualname, "splice-out under `%s` without length merge" % norm(iff.test), fn_where(fi, iff),
+                              "%s: the single-child splice-out under `%s` merges edge lengths (%s)" % (fi.name, norm(iff.test), norm(merges[0])[:50] if merges else ""),
+                              "%s splices out a node with a single child (under `%s`) and re-attaches the grandchildren without adding the removed node's edge length to theirs: total tree length and leaf-to-leaf path lengths change" % (fi.qualname, norm(iff.test)))
+        rep.floor("R07.4", "single-child splice-out sites", 5, nsites)
 
     # ---- R07.5
-    fi = index.function(TREE + ".reroot_at_edge")
-    nc = [c for c in calls_in(fi.node) if call_name(c) == "new_child"]
-    ok1 = len(nc) == 1 and norm(get_kwarg(nc[0], "edge_length")) == "length1" if nc and get_kwarg(nc[0], "edge_length") is not None else False
-    l2 = [n for n in walk_no_nested(fi.node) if isinstance(n, ast.Assign) and norm(n.value) == "length2"]
-    ok2 = len(l2) == 1 and norm(l2[0].targets[0]).endswith(".edge.length")
-    heads = [n for n in walk_no_nested(fi.node) if isinstance(n, ast.Assign) and norm(n.value) == "edge.head_node"]
-    ok3 = bool(heads) and ok2 and norm(l2[0].targets[0]) == norm(heads[0].targets[0]) + ".edge.length"
-    rep.check(ok1 and ok3, "R07.5", fi.qualname, "length wiring", fn_where(fi), "reroot_at_edge: new node's edge gets length1, the old head's edge gets length2",
-              "reroot_at_edge no longer gives the new root-side edge `length1` and the old head node's edge `length2`: the new root does not lie at the requested distances")
-    tail = [n for n in walk_no_nested(fi.node) if isinstance(n, ast.Assign) and norm(n.value) == "edge.tail_node"]
-    ok = bool(nc) and bool(tail) and norm(nc[0].func.value) == norm(tail[0].targets[0])
-    rep.check(ok, "R07.5", fi.qualname, "new node hangs on the old tail", fn_where(fi), "the new root node is created as a child of the edge's tail node",
-              "reroot_at_edge creates the new node under `%s`, not under the edge's tail node" % (norm(nc[0].func.value) if nc else "?"))
-    rr = [c for c in calls_in(fi.node) if call_name(c) == "reroot_at_node"]
-    ok = len(rr) == 1 and nc and isinstance(pm_target(fi, nc[0]), str) and norm(rr[0].args[0]) == pm_target(fi, nc[0])
-    rep.check(bool(ok), "R07.5", fi.qualname, "rerooted at the new node", fn_where(fi), "the tree is re-rooted at the inserted node",
-              "reroot_at_edge re-roots at `%s`, not at the node it inserted on the edge" % (norm(rr[0].args[0]) if rr and rr[0].args else "?"))
+    with rep.section("R07.5"):
+        fi = index.function(TREE + ".reroot_at_edge")
+        nc = [c for c in calls_in(fi.node) if call_name(c) == "new_child"]
+        ok1 = len(nc) == 1 and norm(get_kwarg(nc[0], "edge_length")) == "length1" if nc and get_kwarg(nc[0], "edge_length") is not None else False
+        l2 = [n for n in walk_no_nested(fi.node) if isinstance(n, ast.Assign) and norm(n.value) == "length2"]
+        ok2 = len(l2) == 1 and norm(l2[0].targets[0]).endswith(".edge.length")
+        heads = [n for n in walk_no_nested(fi.node) if isinstance(n, ast.Assign) and norm(n.value) == "edge.head_node"]
+        ok3 = bool(heads) and ok2 and norm(l2[0].targets[0]) == norm(heads[0].targets[0]) + ".edge.length"
+        rep.check(ok1 and ok3, "R07.5", fi.qualname, "length wiring", fn_where(fi), "reroot_at_edge: new node's edge gets length1, the old head's edge gets length2",
+                  "reroot_at_edge no longer gives the new root-side edge `length1` and the old head node's edge `length2`: the new root does not lie at the requested distances")
+        tail = [n for n in walk_no_nested(fi.node) if isinstance(n, ast.Assign) and norm(n.value) == "edge.tail_node"]
+        ok = bool(nc) and bool(tail) and norm(nc[0].func.value) == norm(tail[0].targets[0])
+        rep.check(ok, "R07.5", fi.qualname, "new node hangs on the old tail", fn_where(fi), "the new root node is created as a child of the edge's tail node",
+                  "reroot_at_edge creates the new node under `%s`, not under the edge's tail node" % (norm(nc[0].func.value) if nc else "?"))
+        rr = [c for c in calls_in(fi.node) if call_name(c) == "reroot_at_node"]
+        ok = len(rr) == 1 and nc and isinstance(pm_target(fi, nc[0]), str) and norm(rr[0].args[0]) == pm_target(fi, nc[0])
+        rep.check(bool(ok), "R07.5", fi.qualname, "rerooted at the new node", fn_where(fi), "the tree is re-rooted at the inserted node",
+                  "reroot_at_edge re-roots at `%s`, not at the node it inserted on the edge" % (norm(rr[0].args[0]) if rr and rr[0].args else "?"))
 
     # ---- R07.6
-    fi = index.function(EDGE + ".invert")
-    swaps = [n for n in walk_no_nested(fi.node) if isinstance(n, ast.Assign) and isinstance(n.targets[0], ast.Tuple) and isinstance(n.value, ast.Tuple)
-             and len(n.targets[0].elts) == 2 and all("length" in norm(e) for e in n.targets[0].elts)]
-    ok = False
-    if len(swaps) == 1:
-        a, b = [norm(e).replace("edge_length", "edge.length") for e in swaps[0].targets[0].elts]
-        c, d = [norm(e).replace("edge_length", "edge.length") for e in swaps[0].value.elts]
-        ok = (a, b) == (d, c) and a != b
-    rep.check(ok, "R07.6", fi.qualname, "edge length swap", fn_where(fi, swaps[0] if swaps else None), "Edge.invert swaps the lengths of the two edges",
-              "Edge.invert's length assignment is not a swap of the two edges' lengths: re-seeding changes path lengths")
-    fi = index.function(TREE + ".collapse_basal_bifurcation")
-    aug = [n for n in walk_no_nested(fi.node) if isinstance(n, ast.AugAssign) and isinstance(n.op, ast.Add) and norm(n.target).endswith("edge.length")]
-    cfg = cfg_of(fi)
-    col = [n for n in cfg.nodes if any(call_name(c) == "collapse" for c in node_calls(n))]
-    ok = len(aug) == 1 and bool(col) and "to_keep" in norm(aug[0].target) and "to_del" in norm(aug[0].value) and \
-        all(cfg.dominated_by(cn, lambda n: n.stmt is aug[0] or (n.kind == "handler")) for cn in col)
-    rep.check(ok, "R07.6", fi.qualname, "sibling absorbs the deleted basal edge", fn_where(fi), "collapse_basal_bifurcation adds the deleted edge's length to the kept sibling before collapsing",
-              "collapse_basal_bifurcation no longer adds the deleted basal edge's length to its sibling before collapsing: path lengths across the old root change")
+    with rep.section("R07.6"):
+        fi = index.function(EDGE + ".invert")
+        swaps = [n for n in walk_no_nested(fi.node) if isinstance(n, ast.Assign) and isinstance(n.targets[0], ast.Tuple) and isinstance(n.value, ast.Tuple)
+                 and len(n.targets[0].elts) == 2 and all("length" in norm(e) for e in n.targets[0].elts)]
+        ok = False
+        if len(swaps) == 1:
+            a, b = [norm(e).replace("edge_length", "edge.length") for e in swaps[0].targets[0].elts]
+            c, d = [norm(e).replace("edge_length", "edge.length") for e in swaps[0].value.elts]
+            ok = (a, b) == (d, c) and a != b
+        rep.check(ok, "R07.6", fi.qualname, "edge length swap", fn_where(fi, swaps[0] if swaps else None), "Edge.invert swaps the lengths of the two edges",
+                  "Edge.invert's length assignment is not a swap of the two edges' lengths: re-seeding changes path lengths")
+        fi = index.function(TREE + ".collapse_basal_bifurcation")
+        aug = [n for n in walk_no_nested(fi.node) if isinstance(n, ast.AugAssign) and isinstance(n.op, ast.Add) and norm(n.target).endswith("edge.length")]
+        cfg = cfg_of(fi)
+        col = [n for n in cfg.nodes if any(call_name(c) == "collapse" for c in node_calls(n))]
+        ok = len(aug) == 1 and bool(col) and "to_keep" in norm(aug[0].target) and "to_del" in norm(aug[0].value) and \
+            all(cfg.dominated_by(cn, lambda n: n.stmt is aug[0] or (n.kind == "handler")) for cn in col)
+        rep.check(ok, "R07.6", fi.qualname, "sibling absorbs the deleted basal edge", fn_where(fi), "collapse_basal_bifurcation adds the deleted edge's length to the kept sibling before collapsing",
+                  "collapse_basal_bifurcation no longer adds the deleted basal edge's length to its sibling before collapsing: path lengths across the old root change")
 
 
 def pm_target(fi, call):
